@@ -7,6 +7,11 @@ props = [json.loads(l) for l in open(os.path.join(V, "properties.jsonl"))]
 
 # property id -> (category, technique, level text, level note) ; absent = not claimed (reason in NOT_APPLICABLE)
 CLAIMS = {
+ "C04": ("exploration",
+         "runtime monitoring: reference syntax-rules matcher/instantiator as oracle over an exhaustive pattern x use grid and random rule sets with derived and mutated uses; observed through eval and through Transformer::transform",
+         "every single-rule macro with a pattern of bounded size over an 11-element alphabet against every use of bounded size over 12 data, sampled two-rule sets, and random rule sets (1-5 rules, depth 3) with uses instantiated from their own patterns and single-point mutations are expanded by the real expander; the selected rule and the instantiated template (or the syntax error when no rule matches) are judged by an independent matcher for exactly the class the property names.",
+         "trusted base: vlib/ref_macro.py (60 lines); templates are quoted data so the expansion is observable as a value"),
+
  "C19": ("exploration",
          "runtime monitoring: differential isolation monitor (B interleaved with A on a second instance vs B alone on a fresh thread), instance-creation probe after every step, snapshot of the shared macro table around every step",
          "random program pairs with colliding names are interleaved form by form over two interpreter instances on one thread under several random interleavings; A defines and redefines macros (cond, let, or ...), rebinds builtins, fails imports and raises errors. Every record of B (value, error, tick trace, output) must equal the record of B run alone on a fresh thread, a third instance must be constructible after every step of A, and the bundled macro table must be unchanged after every step.",
